@@ -1907,6 +1907,9 @@ class LeCreditBasedChannel(utils.EventEmitter):
         if self.disconnection_result:
             self.disconnection_result.set_result(None)
             self.disconnection_result = None
+        # Nothing can be sent anymore: release drain() waiters
+        self.flush_output()
+        self.drained.set()
 
     def on_att_mtu_update(self, mtu: int) -> None:
         self.att_mtu = mtu
